@@ -162,6 +162,16 @@ def run_jobs(args, nproc):
         return list(ex.map(one, args))
 
 
+def run_bounded(case, tier, seed):
+    p = subprocess.run([NATIVE_PY, os.path.join(ROOT, "bounded", "run.py"), case, tier, str(seed)], capture_output=True, text=True,
+                       env=dict(os.environ, SHANGRLA_REPO=REPO), cwd="/")
+    try:
+        return json.loads(p.stdout[p.stdout.index("@@BOUNDED@@") + 11:])
+    except Exception:
+        return {"case": case, "error": (p.stderr or p.stdout)[-1500:], "evaluations": 0, "distinct_nontrivial": 0, "failures": [],
+                "failures_more": 0, "samples": [], "bound": "", "exhaustive": False, "wall_s": 0}
+
+
 def load_known():
     path = os.path.join(ROOT, "known_findings.txt")
     findings, fixed = [], []
@@ -200,13 +210,18 @@ def write_replay(prop, payload):
 def run_property(prop, tier):
     t0 = time.time()
     seed = int(os.environ.get("VERIF_SEED", "0"))
-    scripts = [d for d in load_scripts() if prop in d["props"]]
-    if not scripts:
-        print(f"no proof scripts registered for {prop}")
-        return 3
+    scripts = [d for d in load_scripts() if prop in d["props"] and (tier == "thorough" or not d.get("thorough_only"))]
     from contracts import meta as META
-    nproc = min(16, len(scripts), os.cpu_count() or 1)
-    outs = run_jobs([(d["name"], tier, REPO) for d in scripts], nproc)
+    bcases = META.BOUNDED_CASES.get(prop, [])
+    if not scripts and not bcases:
+        print(f"no proof scripts or bounded cases registered for {prop}")
+        return 3
+    import concurrent.futures as cf
+    with cf.ThreadPoolExecutor(max_workers=4) as bex:
+        bfut = [(case, flt, bex.submit(run_bounded, case, tier, seed)) for case, flt in bcases]
+        nproc = min(14, max(1, len(scripts)), os.cpu_count() or 1)
+        outs = run_jobs([(d["name"], tier, REPO) for d in scripts], nproc) if scripts else []
+        bouts = [(case, flt, f.result()) for case, flt, f in bfut]
     findings, fixed = load_known()
     violations, known_lines, undecided, errors = [], [], [], []
     nobl = ndis = 0
@@ -264,6 +279,33 @@ def run_property(prop, tier):
                 c = rep_c[0] if rep_c else (o["counterexamples"][0] if o["counterexamples"] else None)
             violations.append({"property": prop, "script": o["script"], "obligation": r["name"], "clause": r["clause"],
                                "backend": r["backend"], "counterexample": c})
+    # bounded stand-ins
+    bsummary = []
+    for case, flt, b in bouts:
+        if b.get("error"):
+            errors.append(("bounded:" + case, b["error"]))
+        nfail = 0
+        for f in b.get("failures", []):
+            if flt is not None and not any(s in f["clause"] for s in flt):
+                continue
+            kid = f.get("known")
+            match = [k for k in findings if prop in k.get("property", "").split(",") and k.get("id") == kid and k.get("kind") == "bounded"
+                     and k.get("case") == case] if kid else []
+            if match:
+                line = f"KNOWN-FINDING: property={prop} {kid} bounded:{case} :: {match[0]['what']}"
+                if line not in known_lines:
+                    known_lines.append(line)
+                continue
+            nfail += 1
+            violations.append({"property": prop, "script": "bounded:" + case, "obligation": "bounded:" + case + "/" + f["clause"],
+                               "clause": f["clause"], "backend": "native run-time contract check (bounded)",
+                               "counterexample": {"inputs": f["input"], "size": None, "reproduced": True,
+                                                  "replay": {"native": {"got": f.get("got"), "expected": f.get("expected")},
+                                                             "call": {"kind": "bounded", "case": case},
+                                                             "verdicts": [[f["clause"], "violated"]]}}})
+        bsummary.append({"function_or_case": case, "bound": b.get("bound"), "cases": b.get("evaluations"),
+                         "distinct_nontrivial": b.get("distinct_nontrivial"), "exhaustive_within_bound": b.get("exhaustive"),
+                         "failures": nfail, "wall_s": b.get("wall_s"), "samples": b.get("samples", [])[:2]})
     # report
     for line in known_lines:
         print(line)
@@ -297,6 +339,8 @@ def run_property(prop, tier):
         rc = 2
     wall = time.time() - t0
     fnames = sorted({f for o in outs for f in META.functions_of(o["script"])})
+    if not samples and bsummary:
+        samples = [s for b in bsummary for s in b["samples"]][:3]
     ev = {
         "property_id": prop, "tier": tier, "seed": seed,
         "level": META.LEVEL.get(prop, "proof"),
@@ -312,7 +356,9 @@ def run_property(prop, tier):
             "known_findings": known_lines, "undecided": undecided[:20],
             "samples": samples or [{"obligation": outs[0]["results"][0]["name"] if outs and outs[0]["results"] else "none"}],
             "explanation": META.EXPLANATION.get(prop, ""),
-            "bounded_standins": META.BOUNDED.get(prop, []),
+            "bounded_standins": bsummary,
+            "evaluations": sum(b["cases"] or 0 for b in bsummary),
+            "distinct_nontrivial": sum(b["distinct_nontrivial"] or 0 for b in bsummary),
         },
         "assumptions": META.assumptions(prop),
         "wall_s": round(wall, 2),
